@@ -1,0 +1,65 @@
+//go:build verif
+
+// Contracts for the deductive verifier in /verif (gocv). Comment-only file. Address arithmetic of the memory arena that
+// both write buffers are built on (C08, thin: the tree algorithms are not under contract).
+
+package arena
+
+// An arena address packs into 64 bits and back without loss: packing is idx * 2^32 + off with both halves below 2^32,
+// unpacking is division and remainder by 2^32 (the two postconditions are inverse by arithmetic).
+//@ func U64ToAddr
+//@   prop C08
+//@   pure
+//@   ensures mathint(result.idx) == mathint(u64) / 4294967296 && mathint(result.off) == mathint(u64) % 4294967296
+
+//@ func (MemdbArenaAddr) AsU64
+//@   prop C08
+//@   pure
+//@   ensures mathint(result) == mathint(addr.idx) * 4294967296 + mathint(addr.off)
+
+// The null address is recognised by either half being all ones.
+//@ func (MemdbArenaAddr) IsNull
+//@   prop C08
+//@   pure
+//@   ensures NullAddr.idx == 4294967295 && NullAddr.off == 4294967295 ==> result == (addr.idx == 4294967295 || addr.off == 4294967295)
+
+// A key handle keeps the address when the block index fits 16 bits.
+//@ func (MemdbArenaAddr) ToHandle
+//@   prop C08
+//@   pure
+//@   ensures result.off == addr.off && mathint(result.idx) == mathint(addr.idx) % 65536
+//@ func (MemKeyHandle) ToAddr
+//@   prop C08
+//@   pure
+//@   ensures result.off == h.off && mathint(result.idx) == mathint(h.idx)
+
+// Allocation inside a block: on success the piece lies inside the buffer, starts at or after the old end (8-byte aligned
+// when asked for) and the block's length moves to its end; on failure nothing changes.
+//@ func (*memdbArenaBlock) alloc
+//@   prop C08
+//@   requires 0 <= a.length && a.length <= len(a.buf) && len(a.buf) <= 134217728 && 0 <= size && size <= 134217728
+//@   ensures ok: result0 != 4294967295 ==> mathint(result0) >= old(a.length) && mathint(result0) + size == a.length && a.length <= len(a.buf) && len(result1) == size && (align ==> mathint(result0) % 8 == 0 && mathint(result0) < old(a.length) + 8) && (!align ==> mathint(result0) == old(a.length))
+//@   ensures full: result0 == 4294967295 ==> a.length == old(a.length)
+
+// Checkpoints are ordered by (block count, offset in the last block).
+//@ func (*MemDBCheckpoint) LessThan
+//@   prop C08
+//@   may-panic
+//@   ensures cp != nil && cp2 != nil ==> result == (cp.blocks < cp2.blocks || (cp.blocks == cp2.blocks && cp.offsetInBlock < cp2.offsetInBlock))
+
+//@ func (*MemDBCheckpoint) IsSamePosition
+//@   prop C08
+//@   pure
+//@   ensures result == (cp.blocks == other.blocks && cp.offsetInBlock == other.offsetInBlock)
+
+//@ func (*MemdbArena) Checkpoint
+//@   prop C08
+//@   modifies nothing
+//@   ensures result.blocks == len(a.blocks) && result.blockSize == a.blockSize && (len(a.blocks) > 0 ==> result.offsetInBlock == a.blocks[len(a.blocks)-1].length) && (len(a.blocks) == 0 ==> result.offsetInBlock == 0)
+
+// A value-log entry may be overwritten in place exactly when it was written after the checkpoint (its address - the end
+// of the entry - lies beyond the checkpoint's position), or when there is no checkpoint.
+//@ func (*MemdbVlog) CanModify
+//@   prop C08
+//@   pure
+//@   ensures result == (cp == nil || mathint(addr.idx) > cp.blocks - 1 || (mathint(addr.idx) == cp.blocks - 1 && mathint(addr.off) > cp.offsetInBlock))
